@@ -37,8 +37,8 @@ def install(reg):
          "implies(%s, application.app is old(application) and application.trusted_proxy == adj.trusted_proxy"
          " and application.trusted_proxy_count == adj.trusted_proxy_count and application.trusted_proxy_headers is adj.trusted_proxy_headers"
          " and application.clear_untrusted == adj.clear_untrusted_proxy_headers and application.log_untrusted == adj.log_untrusted_proxy_headers)" % CONFIGURED),
-        ("application-untouched-otherwise", "implies(not %s, application is old(application))" % CONFIGURED),
-        ("adjustments-object-kept", "adj is old(adj)"),
+        ("C15-application-untouched-otherwise", "implies(not %s, application is old(application))" % CONFIGURED),
+        ("C15-adjustments-object-kept", "adj is old(adj)"),
     ], {})]
     con.only_segments = [0]
     # `adj` is taken as given (not None): with adj=None the constructor builds it with Adjustments(**kw) (C20's subject) and continues identically
